@@ -152,10 +152,33 @@ def getRemedies (pt : PTree) (g : Globals) (method : String) (us : List Part) : 
     | none => []),
    (g.remedies.filter (·.enabled)).map (·.name))
 
-/-- `DispatchOnRequest` when every remedy is a fixed-response one and the request asks for an early
-    response: remedies run in the order endpoint-scoped, then global; the first one answers. -/
+/-- The enabled remedies `getRemedies` selects, with their types: endpoint-scoped, then global. -/
+def selRemedies (pt : PTree) (g : Globals) (method : String) (us : List Part) : List Remedy :=
+  (match (select pt method us).policy with
+   | some p => p.remedies.filter (·.enabled)
+   | none => []) ++ g.remedies.filter (·.enabled)
+
+/-- `DispatchOnRequest` when every remedy is a fixed-response (type 7) or retry (type 8) one and the request
+    asks for an early response: remedies run in the order endpoint-scoped, then global; the first
+    fixed-response one answers (retry does nothing on the request leg). -/
 def dispatchFirst (pt : PTree) (g : Globals) (method : String) (us : List Part) : Option String :=
-  ((getRemedies pt g method us).1 ++ (getRemedies pt g method us).2).head?
+  ((selRemedies pt g method us).filter (·.type == 7)).head?.map (·.name)
+
+/-- Number of remedies active on the request leg (`request_active_remedies`). -/
+def dispatchActive (pt : PTree) (g : Globals) (method : String) (us : List Part) : Nat :=
+  ((selRemedies pt g method us).filter (·.type == 7)).length
+
+/-- enabled retry remedies of a list -/
+def retryCount (rs : List Remedy) : Nat := (rs.filter fun r => r.enabled && r.type == 8).length
+
+/-- `obtainModifiedEarlyResponse`: the early answer is run through the RESPONSE leg (`getOnResponseRunResult`
+    with the request's method and URL): the first retry remedy selected there modifies it
+    (`response_active_remedies` has ONE entry: the retry plugin's `ModifyResponseAction` carries no status,
+    `EnsureResponseIsUpdated` writes status 0 into the response, later retry remedies see it out of range). -/
+def dispatchRespActive (pt : PTree) (g : Globals) (method : String) (us : List Part) : Nat :=
+  if retryCount (match (select pt method us).policy with
+    | some p => p.remedies
+    | none => []) + retryCount g.remedies > 0 then 1 else 0
 
 def getDiagnoses (pt : PTree) (g : Globals) (method : String) (us : List Part) : List String × List String :=
   let s := select pt method us
